@@ -625,6 +625,23 @@ Definition x_assign_slice (hp : heap) (a src : arr) (off len : nat) : ares :=
     end
   end.
 
+(* array::set(const value &) for vector / scalar values (TypeVector: raw, tr = 0; vector of a scalar type or one scalar:
+   the element type's traits): buffer::create(len, traits), mpt_buffer_set(buf, traits, 0, ptr, len), install *)
+Definition x_set_val (hp : heap) (a : arr) (tr : nat) (d : list byte) : ares :=
+  let nb := set_tr (new_buf (length d) false false) tr in
+  match buffer_set nb tr 0 d with
+  | Ok b2 => ADone (match a with Some i => hunref hp i | None => hp end ++ [Some b2]) (Some (length hp)) 0
+  | Err _ => ARefused hp a
+  | Fault => AFault
+  end.
+
+(* array::content::set_length(len) (raw data only; the new part is zero filled) *)
+Definition x_set_len (b : buf) (n : nat) : res buf :=
+  if negb (btr b =? 0) then Err BadType else
+  if bsize b <? n then Err MissingBuffer else
+  do m <- (if bused b <? n then wr (bdata b) (bused b) (zeros (n - bused b)) else Ok (bdata b));
+  Ok (set_used (set_data b m) n).
+
 (* the content of a buffer *)
 Definition bview (b : buf) : list byte := firstn (bused b) (bdata b).
 
@@ -865,6 +882,11 @@ Inductive op :=
 | OXMkSlice (s y : nat)                (* sl[s] = slice(arr[y]) *)
 | OXShift (s n : nat)
 | OXTrim (s n : nat)
+| OXSetRef (x y : nat)                 (* arr[x].set(reference<buffer> of arr[y]) *)
+| OXSetVal (x tr : nat) (d : list byte) (* arr[x].set(value): vector / scalar of element size tr (0 = TypeVector) *)
+| OXSetLen (x n : nat)                 (* array::content::set_length *)
+| OXSliceCopy (s t : nat)              (* sl[s] = slice(sl[t]) *)
+| OXSliceSet (s : nat) (d : list byte) (ok : bool)   (* sl[s].set(convertable &): the source delivers d / nothing *)
 (* class templates of mptcore/array.h: tr = sizeof(T), uq = unique_array (NoCopy blocks) *)
 | OTNew (x tr : nat) (uq : bool) (len : nat)
 | OTInsert (x tr : nat) (uq : bool) (pos : tpos) (d : list byte)
@@ -887,13 +909,15 @@ Definition target (o : op) : nat :=
   | ONew x _ _ _ | OFlags x _ _ | OMkSlice x _ _ _ | OWrite x _ _ _ _
   | OXAssign x _ | OXAppend x _ | OXSet x _ | OXSetStr x _ | OXAssignSlice x _ | OXMkSlice x _
   | OXShift x _ | OXTrim x _
+  | OXSetRef x _ | OXSetVal x _ _ | OXSetLen x _ | OXSliceCopy x _ | OXSliceSet x _ _
   | OTNew x _ _ _ | OTInsert x _ _ _ _ | OTStore x _ _ _ _ | OTReserve x _ _ _ | OTResize x _ _ _
   | OTDetach x _ _ | OTRead x | OPCompact x _ | OPSwap x _ _ _ | OMSet x _ _ _ _ => x
   end.
 
 Definition is_slice_op (o : op) : bool :=
   match o with
-  | OMkSlice _ _ _ _ | OWrite _ _ _ _ _ | OXMkSlice _ _ | OXShift _ _ | OXTrim _ _ => true
+  | OMkSlice _ _ _ _ | OWrite _ _ _ _ _ | OXMkSlice _ _ | OXShift _ _ | OXTrim _ _
+  | OXSliceCopy _ _ | OXSliceSet _ _ _ => true
   | _ => false
   end.
 
@@ -1019,6 +1043,34 @@ Definition step (st : state) (o : op) : state * outcome :=
     if negb (consistent st x) then (st, OGuard) else
     if hlen h <? n then (st, ORefused)
     else (mkst hp (lset (shnd st) x (mkh a true (hoff h) (hlen h - n))), ODone 0 0)
+  | OXSetRef _ y =>
+    if negb (y <? length (shnd st)) || hsl (hnd st y) then (st, OGuard) else
+    let s := hbuf (hnd st y) in
+    if match s with
+       | Some k => match hget hp k with Some c => negb (btr c =? 0) | None => false end
+       | None => false end
+    then (st, ORefused) else
+    let '(hp1, a1) := ref_assign hp a s in (upd_arr st x hp1 a1, ODone 0 0)
+  | OXSetVal _ tr d => fin st x false (x_set_val hp a tr d)
+  | OXSetLen _ n =>
+    match direct_ok hp a with
+    | None => (st, OGuard)
+    | Some (i, b) => fin st x false (lift hp a (do b1 <- x_set_len b n; Ok (hset hp i b1, a, 0)))
+    end
+  | OXSliceCopy _ t =>
+    if negb (t <? length (shnd st)) || negb (hsl (hnd st t)) then (st, OGuard) else
+    let s := hbuf (hnd st t) in
+    let '(hp1, a1) := ref_assign hp a s in
+    (mkst hp1 (lset (shnd st) x (match s with
+                                 | Some _ => mkh a1 true (hoff (hnd st t)) (hlen (hnd st t))
+                                 | None => mkh a1 true 0 0 end)), ODone 0 0)
+  | OXSliceSet _ d ok =>
+    if negb ok then (st, ORefused) else
+    match x_set hp a d with
+    | ADone hp1 a1 _ => (mkst hp1 (lset (shnd st) x (mkh a1 true 0 (length d))), ODone 0 0)
+    | ARefused hp1 a1 => (mkst hp1 (lset (shnd st) x (mkh a1 true (hoff h) (hlen h))), ORefused)
+    | AFault => (st, OFault)
+    end
   | OTNew _ tr uq len => if tr =? 0 then (st, OGuard) else fin st x false (t_new hp a tr uq len)
   | OTInsert _ tr uq pos d =>
     if negb (t_ok hp a tr && (length d =? tr)) then (st, OGuard) else fin st x false (t_insert hp a tr uq pos d)
